@@ -163,7 +163,7 @@ pub fn run(sc: &Scenario, hooks: Hooks) -> Vec<Value> {
 
     let res = std::panic::catch_unwind(std::panic::AssertUnwindSafe(|| {
         executor.enter(|| {
-            let mut server: Server = build!(Server::builder(), &scn.s, handle, "s", scn.seed ^ 0x51, server_tap, (certificates::CERT_PEM, certificates::KEY_PEM), scn);
+            let mut server: Server = build!(Server::builder().with_endpoint_limits(s2n_quic::provider::endpoint_limits::Default::builder().with_inflight_handshake_limit(if scn.retry { 0 } else { usize::MAX }).unwrap().build().unwrap()).unwrap(), &scn.s, handle, "s", scn.seed ^ 0x51, server_tap, (certificates::CERT_PEM, certificates::KEY_PEM), scn);
             let addr = server.local_addr().unwrap();
             *server_slot.lock().unwrap() = Some(addr);
             {
